@@ -18,7 +18,11 @@
         GetRequestableShare -> [requestable]; QueueResourceShare.AddResourceShare -> [add_share]
     - pkg/scheduler/plugins/proportion/proportion.go: setFairShareForQueues calls
         SetResourcesShare on the children of a queue with totalResources := the
-        queue's fair share -> [set_children].
+        queue's fair share -> [set_children] (one level, one resource) and, for the
+        whole hierarchy and the three resources together,
+        setFairShare / setFairShareForQueues / getTopQueues / getChildQueues
+                                               -> [set_fair_share_tree] (see the last
+                                                  section of this file).
 
     Conventions.
     * Amounts are [Q]; every arithmetic result is normalised with [Qred], so values
@@ -276,3 +280,113 @@ Fixpoint fair_of (u : positive) (qs : list queue) : option Q :=
   | [] => None
   | q :: r => if (q_uid q =? u)%positive then Some (q_fair q) else fair_of u r
   end.
+
+(** * The hierarchy: proportion.go setFairShare / setFairShareForQueues
+
+    [setFairShare] divides [pp.totalResource] among the top queues (those with an
+    empty ParentQueue: [getTopQueues]); [setFairShareForQueues total k queues]
+    returns at once for an empty set, otherwise calls
+    resource_division.SetResourcesShare(total, k, queues) - the three resources
+    one after the other, each touching only its own ResourceShare of every queue -
+    and then, for EVERY queue of the set, recurses into [getChildQueues queue] with
+    [queue.GetFairShare()] (the three fair shares just computed) as total.
+
+    A queue carries its three ResourceShares ([queue3]: one [queue] record per
+    resource, all three with the queue's UID / priority / creation time); a
+    hierarchy is a forest of [qtree]s, the roots being the top queues.  The queue
+    objects are mutated in place in Go and found again through the map key; here
+    every queue of the sibling set picks its new fair share out of the division's
+    result by UID ([updated]).  The recursion is fuelled by the depth of the forest
+    ([forest_depth]); Go's recursion is bounded by the same depth because
+    ParentQueue / ChildQueues form a tree.
+
+    Left out: a ChildQueues entry that names no queue of the snapshot (nil map
+    value: SetResourcesShare panics), queues whose ParentQueue names no queue (they
+    are neither top queues nor anybody's child: never divided), parent cycles.
+
+    [fair_share_tree_gen true] is NOT the code: it is the variant with the
+    "skip idle sub-trees" shortcut (no recursion below a queue whose fair share is
+    <= 0 in all three resources, [ResourceQuantities.LessEqual] against the empty
+    quantities), kept under an explicit name for the refutation witness in
+    Properties/C09.v. *)
+Definition Q3 : Type := (Q * Q * Q)%type.          (* CPU, memory, GPU *)
+
+Inductive resource : Type := Cpu | Mem | Gpu.
+Definition all_resources : list resource := [Cpu; Mem; Gpu].
+Definition sel (r : resource) (t : Q3) : Q :=
+  match r with Cpu => fst (fst t) | Mem => snd (fst t) | Gpu => snd t end.
+
+Record queue3 := mkQ3 { q3_cpu : queue; q3_mem : queue; q3_gpu : queue }.
+Definition res_of (r : resource) (q : queue3) : queue :=
+  match r with Cpu => q3_cpu q | Mem => q3_mem q | Gpu => q3_gpu q end.
+
+Inductive qtree : Type := QT (q : queue3) (children : list qtree).
+Definition troot (t : qtree) : queue3 := match t with QT q _ => q end.
+Definition tkids (t : qtree) : list qtree := match t with QT _ c => c end.
+
+Fixpoint tree_depth (t : qtree) : nat :=
+  match t with
+  | QT _ c => S ((fix fd (l : list qtree) : nat :=
+                    match l with [] => O | x :: r => Nat.max (tree_depth x) (fd r) end) c)
+  end.
+Fixpoint forest_depth (l : list qtree) : nat :=
+  match l with [] => O | x :: r => Nat.max (tree_depth x) (forest_depth r) end.
+
+Definition set_fair (q : queue) (f : Q) : queue :=
+  mkQ (q_uid q) (q_prio q) (q_created q) (q_deserved q) (q_limit q) (q_weight q)
+      (q_request q) (q_usage q) f.
+
+(** the queue object after the division: its fair share is the one the result holds
+    under its UID (every queue of the set is in the result: C09_same_queues) *)
+Definition updated (out : list queue) (q : queue) : queue :=
+  match fair_of (q_uid q) out with Some f => set_fair q f | None => q end.
+
+Definition fair3 (q : queue3) : Q3 :=
+  (q_fair (q3_cpu q), q_fair (q3_mem q), q_fair (q3_gpu q)).
+
+(** ResourceQuantities.LessEqual(EmptyResourceQuantities()) with compareQuantities'
+    treatment of -1 (only used by the skip variant) *)
+Definition nothing_to_divide (t : Q3) : bool :=
+  forallb (fun r => negb (qeqb (sel r t) unlimited) && qleb (sel r t) 0) all_resources.
+
+Fixpoint all_done {A} (l : list (outcome A)) : outcome (list A) :=
+  match l with
+  | [] => Done []
+  | OutOfFuel :: _ => OutOfFuel
+  | Done a :: r => match all_done r with Done l' => Done (a :: l') | OutOfFuel => OutOfFuel end
+  end.
+
+Fixpoint fair_share_tree_gen (skip_idle : bool) (fuel : nat) (totals : Q3) (k : Q)
+         (ts : list qtree) : outcome (list qtree) :=
+  match ts with
+  | [] => Done []                                          (* len(queues) == 0 *)
+  | _ :: _ =>
+      match fuel with
+      | O => OutOfFuel
+      | S f =>
+          match set_resource_share (sel Cpu totals) k (map (fun t => q3_cpu (troot t)) ts),
+                set_resource_share (sel Mem totals) k (map (fun t => q3_mem (troot t)) ts),
+                set_resource_share (sel Gpu totals) k (map (fun t => q3_gpu (troot t)) ts) with
+          | Done (oc, _), Done (om, _), Done (og, _) =>
+              all_done
+                (map (fun t =>
+                        let q := troot t in
+                        let q' := mkQ3 (updated oc (q3_cpu q)) (updated om (q3_mem q))
+                                       (updated og (q3_gpu q)) in
+                        if skip_idle && nothing_to_divide (fair3 q') then Done (QT q' (tkids t))
+                        else match fair_share_tree_gen skip_idle f (fair3 q') k (tkids t) with
+                             | Done c => Done (QT q' c)
+                             | OutOfFuel => OutOfFuel
+                             end) ts)
+          | _, _, _ => OutOfFuel
+          end
+      end
+  end.
+
+(** setFairShare on the forest of top queues: the code as it is *)
+Definition set_fair_share_tree : nat -> Q3 -> Q -> list qtree -> outcome (list qtree) :=
+  fair_share_tree_gen false.
+
+(** NOT the code: the "skip idle sub-trees" variant *)
+Definition set_fair_share_tree_skip_idle : nat -> Q3 -> Q -> list qtree -> outcome (list qtree) :=
+  fair_share_tree_gen true.
